@@ -79,6 +79,8 @@ NODES = {
     "innerparen": ("let  t=( {A} {N} ) ;", "( qz  *  2 )"),
     # a skipped declaration directly after an unskipped one of the same kind (it must not be
     # drawn into the reorderable run of its neighbour)
+    # an out-of-line module declaration as a statement of a block
+    "moddecl_stmt": ("{A}\n{N}", "mod   qz ;"),
     "use_after": ("use zz::first;\n{A}\n{N}\nuse zz::last;", "use   qa :: { c ,b } ;"),
     "externcrate_after": ("extern crate zz;\n{A}\n{N}", "extern   crate   qz ;"),
     # the skip attribute written as an INNER attribute of the node's own body (@AI@)
@@ -398,7 +400,7 @@ def run(tier, seed, replay=None):
     cov = {"evaluations": len(jobs) + n_oo, "distinct_nontrivial": len(nontriv),
            "rule": "Skip.tla scenarios (paths of depth <= 3 over 14 constructs, declarations on every "
                    "declaring construct and on the crate, 3 settings of skip_macro_invocations, 8 name "
-                   "targets, 51 node kinds x 9 spellings) rendered and formatted; quick = every cell "
+                   "targets, 52 node kinds x 9 spellings) rendered and formatted; quick = every cell "
                    "(target/node, spelling/cfg, declaring constructs, innermost construct) once plus a "
                    "seed-chosen sample; distinct_nontrivial = distinct (target or node, innermost "
                    "construct) cells; plus 17 whole-file opt-outs x 4 emit modes through the binary",
